@@ -160,7 +160,25 @@ def object_roundtrip_validation(ck):
                          dict(clause='roundtrip_object', how='ser', what='object', vars=vars_))
 
 
+def confirm_de(v):
+    """a counterexample of the emit -> parse kernel: the object is built in memory natively (variables, precedence order,
+    last build component of the model), emitted with the real ron printer and parsed back with the real ron parser"""
+    import ast
+    req = dict(op='zerv_roundtrip', vars=v['vars'], order=v['order_a'])
+    try:
+        spec = ast.literal_eval(v.get('schema_spec') or 'None')
+        if spec and len(spec[2]) == 2 and spec[2][0] == ('var', 'BumpedBranch'):
+            req['build_kind'] = list(spec[2][1])
+    except Exception:
+        pass
+    r = native.driver().call(**req)
+    bad = 'panic' in r or not r.get('ok') or r['object'] != r['object2'] or r['emitted'] != r['emitted2']
+    return bad, 'in-memory object (order %s) emit -> parse: %s' % (v['orders'][0], (r.get('err') or r.get('panic') or 'object or re-emitted document differs') if bad else 'identical')
+
+
 def confirm(v):
+    if v.get('clause') == 'roundtrip_de':
+        return confirm_de(v)
     if v.get('clause') == 'roundtrip_object':
         r = native.driver().call(op='zerv_roundtrip', vars=v['vars'])
         bad = 'panic' in r or not r.get('ok') or r['object'] != r['object2']
@@ -183,7 +201,9 @@ def main():
     ck.bounds = dict(schemas='core <= %d, extra-core <= %d, build <= %d components; each plain component is ANY of the 17 variables (a solver variable), plus literal / timestamp mixes with symbolic pattern text of <= 4 chars' % ((3, 3, 1) if quick else (4, 4, 2)),
                      entry_points=['ZervSchema::new', 'Zerv::new on a field-wise assembled schema', 'set_core', 'set_extra_core', 'set_build'], configurations=len(args))
     ck.bounds['serialisation'] = 'Zerv objects over one 3+5+3 schema (all component kinds; literal contents symbolic), every ZervVars field with symbolic presence and contents (numbers any u64, texts 1 char), %d pairs of precedence orders (default, adjacent swaps, reversed, prefix, empty)' % len(c12.ser_args(ck.tier))
-    ck.outside = ['the ron printer/parser and the derived Deserialize impls: decided is only that zerv\'s Serialize impls (executed from MIR against a recording serializer) never map two different objects to one serde document — a necessary condition of the lossless round trip; the real emit/parse/emit round trip is run natively on a few documents per run as validation',
+    ck.bounds['deserialisation'] = 'emit -> parse -> emit of Zerv objects: %d configurations (every precedence order of the menu; 15 schemas incl. every component kind as last build component), every ZervVars field with symbolic presence and contents (numbers any u64, texts 2 chars over ASCII + class representatives, custom = {})' % len(c12.de_args(ck.tier))
+    ck.outside = ['the text layer of ron (printer and parser): zerv\'s Serialize impls and its derived / hand-written Deserialize impls (visitors, field matchers, defaults, deserialize_with helpers) are executed from MIR against a recording serializer and a replaying deserializer that exchange the serde data-model tree; that ron prints and re-reads that tree faithfully is trusted and exercised natively on every run (document and in-memory object round trips)',
+                  'custom variables other than the empty object (serde_json::Value through ron\'s deserialize_any)',
                   'malformed-document handling: serde / ron library code has no MIR in the crate and CBMC cannot get through its string handling (measured, DESIGN §2)',
                   'pipe equivalence through the zerv binary', 'custom(...) components', 'longer schemas']
     ck.assumptions = ['python models of Vec/HashSet/IndexMap/iterator functions', 'oracle = placement rules transcribed from the statement as a z3 formula over the variable choices']
@@ -202,6 +222,13 @@ def main():
     for v in scands:
         v.setdefault('how', 'ser')
     cands += scands
+    dargs = c12.de_args(ck.tier)
+    ex = engine.explore('c12', 'path_de', dargs, jobs=ck.jobs, deadline=time.time() + (600 if quick else 1800))
+    dcands = ck.absorb('emit -> parse is the identity at the serde data-model level (zerv\'s Serialize and Deserialize impls from MIR, recording serializer + replaying deserializer) and re-emits the same document', ex,
+                       bounds=dict(configs=len(dargs)), expect_tags=['emitted', 'parsed_back', 'identical'])
+    for v in dcands:
+        v.setdefault('how', 'de')
+    cands += dcands
     roundtrip_validation(ck)
     object_roundtrip_validation(ck)
     seen = set()
